@@ -30,6 +30,144 @@ Lemma hp_val_source s vs : hp_val s vs = overall s \/ In (hp_val s vs) vs.
 Proof. apply absorb_source. Qed.
 
 (* ================================================================================== *)
+(* 1b. The blocked-output loop (WriteLoop of handleXLogData), exactly                   *)
+(* ================================================================================== *)
+(* state and observations after the ticks served while the output channel is full; a tick that
+   finds the progress channel closed ends the loop (and the client: [blocked_closed]) *)
+Fixpoint bt_state (s : cstate) (bl : list (list N * bool)) : cstate :=
+  match bl with
+  | [] => s
+  | (vs, closed) :: r =>
+      if closed then s else bt_state (set_conn (set_overall s (hp_val s vs)) true) r
+  end.
+
+(* [h] = highestWalStart, [conn] = the manager holds a live connection, [cur] = overallProgress
+   when the loop is entered: per tick one connection request and one status update carrying the
+   position after absorbing the values waiting at that tick *)
+Fixpoint blocked_obs (h : N) (conn : bool) (cur : N) (bl : list (list N * bool)) : list cobs :=
+  match bl with
+  | [] => []
+  | (vs, closed) :: r =>
+      if closed then [] else
+      CGetStart h (negb conn) :: CSend (fst (absorb cur vs)) :: blocked_obs h true (fst (absorb cur vs)) r
+  end.
+
+(* overallProgress after the loop *)
+Fixpoint blocked_val (cur : N) (bl : list (list N * bool)) : N :=
+  match bl with
+  | [] => cur
+  | (vs, closed) :: r => if closed then cur else blocked_val (fst (absorb cur vs)) r
+  end.
+
+Definition bt_obs (s : cstate) (bl : list (list N * bool)) : list cobs :=
+  blocked_obs (highest s) (conn_open s) (overall s) bl.
+
+Lemma blocked_ticks_eq bl : forall s,
+  blocked_ticks s bl = (bt_state s bl, bt_obs s bl, blocked_closed bl).
+Proof.
+  induction bl as [|[vs closed] bl IH]; intros s; [reflexivity|].
+  unfold bt_obs. cbn [blocked_ticks bt_state blocked_obs blocked_closed existsb snd].
+  destruct closed; [rewrite hp_closed; reflexivity|].
+  rewrite hp_shape, orb_true_r, IH. reflexivity.
+Qed.
+
+Lemma bt_overall bl : forall s, overall (bt_state s bl) = blocked_val (overall s) bl.
+Proof.
+  induction bl as [|[vs closed] bl IH]; intros s; [reflexivity|].
+  cbn [bt_state blocked_val]. destruct closed; [reflexivity|]. rewrite IH. reflexivity.
+Qed.
+
+Definition gs_or_send (x : cobs) : bool :=
+  match x with CGetStart _ _ | CSend _ => true | _ => false end.
+
+Lemma bt_state_frame s bl :
+  highest (bt_state s bl) = highest s /\ ctxn (bt_state s bl) = ctxn s /\ ckey (bt_state s bl) = ckey s /\
+  begins (bt_state s bl) = begins s /\ saw_commit (bt_state s bl) = saw_commit s /\
+  first_iter (bt_state s bl) = first_iter s /\ stopped (bt_state s bl) = stopped s /\
+  hb_count (bt_state s bl) = hb_count s /\ hb_slow (bt_state s bl) = hb_slow s /\
+  (conn_open s = true -> conn_open (bt_state s bl) = true).
+Proof.
+  destruct (bt_frame bl s _ _ _ (blocked_ticks_eq bl s)) as (F1 & F2 & F3 & F4 & F5 & F6 & F7 & F8 & F9 & F10 & _).
+  repeat split; assumption.
+Qed.
+
+Lemma bt_highest s bl : highest (bt_state s bl) = highest s.
+Proof. apply bt_state_frame. Qed.
+Lemma bt_ctxn s bl : ctxn (bt_state s bl) = ctxn s.
+Proof. apply bt_state_frame. Qed.
+Lemma bt_ckey s bl : ckey (bt_state s bl) = ckey s.
+Proof. apply bt_state_frame. Qed.
+Lemma bt_begins s bl : begins (bt_state s bl) = begins s.
+Proof. apply bt_state_frame. Qed.
+Lemma bt_saw_commit s bl : saw_commit (bt_state s bl) = saw_commit s.
+Proof. apply bt_state_frame. Qed.
+Lemma bt_first_iter s bl : first_iter (bt_state s bl) = first_iter s.
+Proof. apply bt_state_frame. Qed.
+Lemma bt_stopped s bl : stopped (bt_state s bl) = stopped s.
+Proof. apply bt_state_frame. Qed.
+Lemma bt_hb_count s bl : hb_count (bt_state s bl) = hb_count s.
+Proof. apply bt_state_frame. Qed.
+Lemma bt_hb_slow s bl : hb_slow (bt_state s bl) = hb_slow s.
+Proof. apply bt_state_frame. Qed.
+Lemma bt_conn_open s bl : conn_open s = true -> conn_open (bt_state s bl) = true.
+Proof. apply bt_state_frame. Qed.
+
+Lemma bt_overall_ge s bl : (overall s <= overall (bt_state s bl))%N.
+Proof. apply (bt_acks bl s _ _ _ (blocked_ticks_eq bl s)). Qed.
+
+(* the loop emits connection requests (never a fresh one when the connection is open) and status
+   updates only *)
+Lemma bt_obs_kind s bl x : In x (bt_obs s bl) -> gs_or_send x = true.
+Proof.
+  intros I. destruct (bt_frame bl s _ _ _ (blocked_ticks_eq bl s)) as (_ & _ & _ & _ & _ & _ & _ & _ & _ & _ & _ & K).
+  destruct (K x I) as [(f & -> & _)|(v & ->)]; reflexivity.
+Qed.
+
+Lemma bt_obs_getstart s bl l f : In (CGetStart l f) (bt_obs s bl) ->
+  l = highest s /\ (f = true -> conn_open s = false) /\ bl <> [].
+Proof.
+  intros I. assert (Ne : bl <> []) by (intros ->; exact I). destruct (bt_frame bl s _ _ _ (blocked_ticks_eq bl s)) as (_ & _ & _ & _ & _ & _ & _ & _ & _ & _ & _ & K).
+  destruct (K _ I) as [(f' & E & Ff)|(v & E)]; inversion E; subst; auto.
+Qed.
+
+Lemma blocked_obs_count bl : forall h conn cur, blocked_closed bl = false ->
+  List.length (acks (blocked_obs h conn cur bl)) = List.length bl.
+Proof.
+  induction bl as [|[vs closed] bl IH]; intros h conn cur C; [reflexivity|].
+  cbn [blocked_closed existsb snd] in C. apply orb_false_elim in C. destruct C as [-> C].
+  cbn [blocked_obs acks flat_map app List.length]. f_equal. apply IH. exact C.
+Qed.
+
+Lemma bt_obs_source s bl a : In a (acks (bt_obs s bl)) -> a = overall s \/ In a (blocked_values bl).
+Proof.
+  intros I.
+  destruct (bt_source (fun v => v = overall s \/ In v (blocked_values bl)) bl s _ _ _ (blocked_ticks_eq bl s)) as [_ F];
+    [now left|intros v Hv; now right|].
+  rewrite Forall_forall in F. apply F. exact I.
+Qed.
+
+(* one status update per tick *)
+Lemma bt_obs_count bl : forall s, blocked_closed bl = false ->
+  List.length (acks (bt_obs s bl)) = List.length bl.
+Proof.
+  induction bl as [|[vs closed] bl IH]; intros s C; [reflexivity|].
+  cbn [blocked_closed existsb snd] in C. apply orb_false_elim in C. destruct C as [-> C].
+  unfold bt_obs in *. cbn [blocked_obs acks flat_map app List.length]. f_equal.
+  apply (IH (set_conn (set_overall s (fst (absorb (overall s) vs))) true)). exact C.
+Qed.
+
+(* decomposition of a membership hypothesis over the observation lists built here *)
+Ltac in_split_k H k :=
+  lazymatch type of H with
+  | In _ (_ ++ _) => apply in_app_or in H; destruct H as [H|H]; in_split_k H k
+  | In _ (_ :: _) => destruct H as [H|H]; [|in_split_k H k]
+  | In _ [] => destruct H
+  | In _ (bt_obs _ _) => k H
+  | _ => idtac
+  end.
+Ltac in_split H := in_split_k H ltac:(fun H => apply bt_obs_kind in H).
+
+(* ================================================================================== *)
 (* 2. One loop iteration, factored: head (ticker, handleProgress, GetConn, Receive)     *)
 (*    then the handling of the received event                                          *)
 (* ================================================================================== *)
@@ -63,7 +201,7 @@ Definition ev_step (s2 : cstate) (it : citer) : cstate * list cobs :=
       let '(s4, f) := heartbeat s3 slow in
       if f then fatal s4 o3 else (s4, o3)
   | EXLog wal k =>
-      let '(s3, o3, f) := handle_xlog s2 wal k in
+      let '(s3, o3, f) := handle_xlog s2 wal k (i_blocked it) in
       if f then fatal s3 o3 else (s3, o3)
   end.
 
@@ -77,9 +215,11 @@ Proof.
   rewrite hp_shape. unfold head_out, head_sends, ev_step, head_state, prog2.
   destruct (hp_upd s (i_prog it) || i_tick it); unfold get_start;
     (destruct (i_ev it) as [w k| w [|] sl | | | | | | x | | |]; try reflexivity;
-     [ destruct k; unfold handle_xlog, fatal; simpl; try reflexivity;
+     [ destruct k; unfold handle_xlog, write_loop, fatal; simpl; try reflexivity;
        try (destruct (saw_commit s), (first_iter s); simpl; try reflexivity);
-       rewrite <- ?app_assoc; reflexivity
+       rewrite ?blocked_ticks_eq; cbv beta iota;
+       try match goal with |- context [blocked_closed ?b] => destruct (blocked_closed b) end;
+       simpl; rewrite <- ?app_assoc; reflexivity
      | destruct (i_pclosed2 it); [rewrite hp_closed; reflexivity|];
        rewrite hp_shape, orb_true_r; unfold heartbeat, fatal; simpl;
        destruct (negb (hb_slow s || sl) && (5 <? hb_count s + 1)%N);
@@ -218,13 +358,18 @@ Proof. intros H first its. rewrite crun_fst. apply citers_fold. exact H. Qed.
 
 (* full case analysis of the handling of the received event (goal-directed) *)
 Ltac ev_an :=
-  unfold ev_step, prog2, fatal, recover, heartbeat, handle_xlog;
+  unfold ev_step, prog2, fatal, recover, heartbeat, handle_xlog, write_loop;
   match goal with
   | |- context [i_ev ?it] =>
       let Hev := fresh "Hev" in
       destruct (i_ev it) as [w [t|t|op| |]| w [|] sl | | | | | | x | | |] eqn:Hev
   end;
+  rewrite ?blocked_ticks_eq; cbv beta iota;
   repeat match goal with |- context [if ?c then _ else _] => destruct c eqn:? end;
+  cbn [fst snd app set_conn set_overall stop overall highest ctxn ckey saw_commit first_iter conn_open
+       hb_count hb_slow begins stopped negb];
+  rewrite ?bt_highest, ?bt_ctxn, ?bt_ckey, ?bt_begins, ?bt_saw_commit, ?bt_first_iter, ?bt_stopped,
+          ?bt_hb_count, ?bt_hb_slow;
   cbn [fst snd app set_conn set_overall stop overall highest ctxn ckey saw_commit first_iter conn_open
        hb_count hb_slow begins stopped negb].
 
@@ -245,7 +390,7 @@ Proof.
 Qed.
 
 Lemma ev_out_no_recv s2 it : ~ In CRecv (snd (ev_step s2 it)).
-Proof. ev_an; intros H; repeat (destruct H as [H|H]; [discriminate H|]); exact H. Qed.
+Proof. ev_an; intros H; in_split H; discriminate H. Qed.
 
 Lemma head_out_one_recv s it : exists pre, head_out s it = pre ++ [CRecv] /\ ~ In CRecv pre.
 Proof.
@@ -254,12 +399,14 @@ Proof.
 Qed.
 
 (* inside one iteration: what is sent before the receive comes from the values waiting at the
-   loop head, what is sent after it from those and the values waiting at the second call *)
+   loop head, what is sent after it from those, the values waiting at the second call and the
+   values waiting at the ticks served while the output channel is full *)
 Lemma cstep_acks_fine s it s' o :
   cstep s it = (s', o) -> stopped s = false -> i_pclosed it = false ->
   exists pre post, o = pre ++ CRecv :: post /\ ~ In CRecv pre /\ ~ In CRecv post /\
     (forall a, In a (acks pre) -> a = overall s \/ In a (i_prog it)) /\
-    (forall a, In a (acks post) -> a = overall s \/ In a (i_prog it) \/ In a (i_prog2 it)).
+    (forall a, In a (acks post) -> a = overall s \/ In a (i_prog it) \/ In a (i_prog2 it) \/
+                                   In a (blocked_values (i_blocked it))).
 Proof.
   intros H R Pc. rewrite (cstep_consumed _ _ R Pc) in H. inversion H; subst; clear H.
   exists (removelast (head_out s it)), (snd (ev_step (head_state s it) it)).
@@ -277,7 +424,11 @@ Proof.
     assert (O : overall (head_state s it) = hp_val s (i_prog it)) by reflexivity. rewrite O in S2.
     unfold ev_step, prog2.
     revert S2. generalize (hp_val (head_state s it) (i_prog2 it)) as c2. intros c2 S2.
-    ev_an; simpl; try tauto; intros [<-|[]]; destruct S2 as [->|?]; tauto.
+    ev_an; rewrite ?acks_app; simpl; try tauto;
+    first [ intros [<-|[]]; destruct S2 as [->|?]; tauto
+          | intros I; rewrite ?app_nil_r in I; apply bt_obs_source in I;
+            cbn [overall head_state set_conn set_overall] in I;
+            destruct I as [->|I]; [destruct S1 as [->|S1]; tauto|tauto] ].
 Qed.
 
 (* ---- the requested restart position ---- *)
@@ -291,9 +442,11 @@ Definition hi_spec (h : N) (evs : list cev) : N := fold_left hi_ev evs h.
 
 Lemma ev_step_highest s2 it : highest (fst (ev_step s2 it)) = hi_ev (highest s2) (i_ev it).
 Proof.
-  ev_an; try reflexivity.
-  - apply N.ltb_lt in Heqb. unfold hi_ev. lia.
-  - apply N.ltb_ge in Heqb. unfold hi_ev. lia.
+  ev_an; try reflexivity; unfold hi_ev;
+  match goal with
+  | Hlt : (highest _ <? _)%N = true |- _ => apply N.ltb_lt in Hlt; lia
+  | Hge : (highest _ <? _)%N = false |- _ => apply N.ltb_ge in Hge; lia
+  end.
 Qed.
 
 Lemma cstep_highest s it :
@@ -314,21 +467,46 @@ Proof.
   destruct (i_ev it) as [w [t|t|op| |]| w [|] sl | | | | | | x | | |]; simpl in E; eauto 10.
 Qed.
 
-Lemma ev_out_getstart s2 it l f : In (CGetStart l f) (snd (ev_step s2 it)) -> l = highest s2 /\ f = negb (conn_open s2).
+(* connection requests made while handling the received event carry highestWalStart as it was at
+   the loop head - except those of the blocked-output loop of a COMMIT: handleXLogData has
+   advanced highestWalStart to that COMMIT before it enters the WriteLoop *)
+Lemma ev_out_getstart s2 it l f : In (CGetStart l f) (snd (ev_step s2 it)) ->
+  (l = highest s2 \/
+   (exists w t, i_ev it = EXLog w (XCommit t) /\ i_blocked it <> [] /\ l = N.max (highest s2) w)) /\
+  (f = true -> conn_open s2 = false).
 Proof.
-  ev_an; intros H; repeat (destruct H as [H|H]; [try discriminate H|]); try contradiction;
-  inversion H; auto.
+  ev_an; intros H;
+  in_split_k H ltac:(fun H => apply bt_obs_getstart in H; cbn [highest conn_open] in H;
+                              destruct H as (-> & Hf & Hne));
+  try discriminate H;
+  try (inversion H; subst; split; [now left|now destruct (conn_open s2)]);
+  (split; [|exact Hf]);
+  try (now left);
+  match goal with
+  | Hlt : (highest _ <? _)%N = true |- _ => apply N.ltb_lt in Hlt; right; exists w, t; repeat split; auto; lia
+  | Hge : (highest _ <? _)%N = false |- _ => apply N.ltb_ge in Hge; now left
+  end.
 Qed.
 
 Lemma cstep_getstart s it s' o l f :
-  cstep s it = (s', o) -> In (CGetStart l f) o -> l = highest s.
+  cstep s it = (s', o) -> In (CGetStart l f) o ->
+  l = highest s \/
+  (f = false /\ exists w t, i_ev it = EXLog w (XCommit t) /\ i_blocked it <> [] /\ l = N.max (highest s) w).
 Proof.
   intros H I. step3 H; try (simpl in I; repeat (destruct I as [I|I]; [discriminate I|]); contradiction).
   apply in_app_or in I. destruct I as [I|I].
-  - destruct (head_out_shape s it) as (pre & E & P & _). rewrite E in I.
+  - left. destruct (head_out_shape s it) as (pre & E & P & _). rewrite E in I.
     apply in_app_or in I. destruct I as [I|[I|[]]]; [|discriminate I].
     destruct (P _ I) as [[f' E']|E']; inversion E'; reflexivity.
-  - apply ev_out_getstart in I. tauto.
+  - apply ev_out_getstart in I. destruct I as [[E|E] Ff]; [now left|right].
+    split; [|exact E]. destruct f; [|reflexivity]. specialize (Ff eq_refl). discriminate Ff.
+Qed.
+
+(* a request that issues START_REPLICATION always carries the loop-head value *)
+Lemma cstep_getstart_fresh s it s' o l :
+  cstep s it = (s', o) -> In (CGetStart l true) o -> l = highest s.
+Proof.
+  intros H I. destruct (cstep_getstart _ _ _ _ _ _ H I) as [E|[E _]]; [exact E|discriminate E].
 Qed.
 
 Lemma cstart_highest first : highest (fst (cstart first)) = 0%N.
@@ -348,15 +526,25 @@ Proof.
 Qed.
 
 (* run level: iteration k (after its1) of a client that is still running *)
+Lemma hi_spec_snoc h evs e : hi_spec h (evs ++ [e]) = hi_ev (hi_spec h evs) e.
+Proof. unfold hi_spec. rewrite fold_left_app. reflexivity. Qed.
+
 Lemma crun_restart_lsn first its1 it its2 s' o l f :
   stopped (fst (crun first its1)) = false ->
   cstep (fst (crun first its1)) it = (s', o) ->
   In (CGetStart l f) o ->
-  l = hi_spec 0 (map i_ev its1) /\
+  (l = hi_spec 0 (map i_ev its1) \/
+   (f = false /\ i_blocked it <> [] /\ (exists w t, i_ev it = EXLog w (XCommit t)) /\
+    l = hi_spec 0 (map i_ev (its1 ++ [it])))) /\
+  (f = true -> l = hi_spec 0 (map i_ev its1)) /\
   snd (crun first (its1 ++ it :: its2)) = snd (crun first its1) ++ o ++ snd (citers s' its2).
 Proof.
-  intros R H I. split.
-  - rewrite <- (crun_highest first its1 R). eapply cstep_getstart; eassumption.
+  intros R H I. split; [|split].
+  - rewrite <- (crun_highest first its1 R).
+    destruct (cstep_getstart _ _ _ _ _ _ H I) as [E|(Ef & w & t & Ev & Ne & E)]; [now left|right].
+    repeat split; eauto. rewrite map_app. cbn [map]. rewrite hi_spec_snoc, Ev. cbn [hi_ev].
+    rewrite <- (crun_highest first its1 R). exact E.
+  - intros ->. rewrite <- (crun_highest first its1 R). eapply cstep_getstart_fresh; eassumption.
   - rewrite crun_split, H. reflexivity.
 Qed.
 
@@ -368,7 +556,7 @@ Proof.
   apply in_app_or in I. destruct I as [I|I].
   - destruct (head_out_shape s it) as (pre & E & _ & P). rewrite E in I.
     apply in_app_or in I. destruct I as [I|[I|[]]]; [|discriminate I]. eapply P; eassumption.
-  - apply ev_out_getstart in I. destruct I as [_ I]. simpl in I. discriminate.
+  - apply ev_out_getstart in I. destruct I as [_ I]. specialize (I eq_refl). simpl in I. discriminate.
 Qed.
 
 Lemma cstep_conn_closes s it s' o :
@@ -381,7 +569,8 @@ Proof.
   revert C. generalize (head_out s it). intros ho.
   pose proof (head_state_fields s it) as (_ & _ & _ & _ & Fs & Ff & Fc & _).
   revert Fs Ff Fc. generalize (head_state s it). intros s2 Fs Ff Fc.
-  ev_an; intros C; auto; try congruence; eauto.
+  ev_an; intros C; auto; try congruence; eauto;
+  try (rewrite bt_conn_open in C by (cbn [conn_open]; exact Fc); discriminate C).
   right; right; left. exists w, t. rewrite <- Fs, <- Ff.
   apply andb_prop in Heqb. destruct Heqb as [B1 B2].
   apply negb_true_iff in B1. apply negb_true_iff in B2.
@@ -397,7 +586,7 @@ Definition erase_ev (e : cev) : cev :=
   | e => e
   end.
 Definition erase_it (it : citer) : citer :=
-  mkIter (i_tick it) (i_prog it) (i_pclosed it) (erase_ev (i_ev it)) (i_prog2 it) (i_pclosed2 it).
+  mkIter (i_tick it) (i_prog it) (i_pclosed it) (erase_ev (i_ev it)) (i_prog2 it) (i_pclosed2 it) (i_blocked it).
 
 Definition ev_positions (e : cev) : list N :=
   match e with EXLog w _ => [w] | EKeepalive w _ _ => [w] | EErrorResponse x => [x] | _ => [] end.
@@ -408,14 +597,76 @@ Definition forget (s : cstate) : cstate :=
   mkCst (overall s) 0 (ctxn s) (ckey s) (saw_commit s) (first_iter s) (conn_open s) (hb_count s) (hb_slow s)
         (begins s) (stopped s).
 
+Lemma stop_forget s t : forget s = forget t -> forget (stop s) = forget (stop t).
+Proof. destruct s, t. unfold forget. simpl. intros H. inversion H; subst. reflexivity. Qed.
+
+(* the blocked-output loop reads [overall] and [conn_open] only; [highest] appears in its
+   connection requests, not in what it acknowledges *)
+Lemma bt_forget bl : forall s t, forget s = forget t ->
+  forget (bt_state s bl) = forget (bt_state t bl) /\ acks (bt_obs s bl) = acks (bt_obs t bl).
+Proof.
+  induction bl as [|[vs closed] bl IH]; intros s t H; [split; [exact H|reflexivity]|].
+  unfold bt_obs in *. cbn [bt_state blocked_obs]. destruct closed; [split; [exact H|reflexivity]|].
+  assert (Ho : overall s = overall t) by (apply (f_equal overall) in H; exact H).
+  unfold hp_val. rewrite Ho.
+  destruct (IH (set_conn (set_overall s (fst (absorb (overall t) vs))) true)
+               (set_conn (set_overall t (fst (absorb (overall t) vs))) true)) as [F A].
+  { destruct s, t. unfold forget in *. simpl in *. inversion H; subst. reflexivity. }
+  split; [exact F|]. cbn [acks flat_map app]. f_equal. exact A.
+Qed.
+
+Lemma write_loop_forget s t bl op tx k w w' : forget s = forget t ->
+  forget (fst (fst (write_loop s bl (COut op tx k w)))) = forget (fst (fst (write_loop t bl (COut op tx k w')))) /\
+  acks (snd (fst (write_loop s bl (COut op tx k w)))) = acks (snd (fst (write_loop t bl (COut op tx k w')))) /\
+  snd (write_loop s bl (COut op tx k w)) = snd (write_loop t bl (COut op tx k w')).
+Proof.
+  intros H. unfold write_loop. rewrite !blocked_ticks_eq. destruct (bt_forget bl s t H) as [F A].
+  destruct (blocked_closed bl); cbn [fst snd]; rewrite ?acks_app, A; auto.
+Qed.
+
+Lemma handle_xlog_forget s2 t2 w k bl : forget s2 = forget t2 ->
+  forget (fst (fst (handle_xlog s2 w k bl))) = forget (fst (fst (handle_xlog t2 0 k bl))) /\
+  acks (snd (fst (handle_xlog s2 w k bl))) = acks (snd (fst (handle_xlog t2 0 k bl))) /\
+  snd (handle_xlog s2 w k bl) = snd (handle_xlog t2 0 k bl).
+Proof.
+  intros H.
+  destruct k as [t|t|op| |]; unfold handle_xlog.
+  - (* BEGIN *)
+    assert (E1 : saw_commit s2 = saw_commit t2) by (apply (f_equal saw_commit) in H; exact H).
+    assert (E2 : first_iter s2 = first_iter t2) by (apply (f_equal first_iter) in H; exact H).
+    assert (E3 : begins s2 = begins t2) by (apply (f_equal begins) in H; exact H).
+    rewrite E1, E2, E3. destruct (negb (saw_commit t2) && negb (first_iter t2)).
+    + cbn [fst snd]. repeat split; try reflexivity.
+      destruct s2, t2. unfold forget in *. simpl in *. inversion H; subst. reflexivity.
+    + apply write_loop_forget. destruct s2, t2. unfold forget in *. simpl in *. inversion H; subst. reflexivity.
+  - (* COMMIT *)
+    assert (E1 : ctxn s2 = ctxn t2) by (apply (f_equal ctxn) in H; exact H).
+    assert (E2 : ckey s2 = ckey t2) by (apply (f_equal ckey) in H; exact H).
+    cbn [ctxn ckey]. rewrite E1, E2.
+    apply write_loop_forget. destruct s2, t2. unfold forget in *. simpl in *. inversion H; subst. reflexivity.
+  - (* change *)
+    assert (E1 : ctxn s2 = ctxn t2) by (apply (f_equal ctxn) in H; exact H).
+    assert (E2 : ckey s2 = ckey t2) by (apply (f_equal ckey) in H; exact H).
+    rewrite E1, E2. apply write_loop_forget. exact H.
+  - cbn [fst snd]. repeat split; try reflexivity. exact H.
+  - cbn [fst snd]. repeat split; try reflexivity. exact H.
+Qed.
+
 Lemma ev_step_forget s2 t2 it : forget s2 = forget t2 ->
   forget (fst (ev_step s2 it)) = forget (fst (ev_step t2 (erase_it it))) /\
   acks (snd (ev_step s2 it)) = acks (snd (ev_step t2 (erase_it it))).
 Proof.
-  destruct s2, t2. unfold forget. simpl. intros H. inversion H; subst; clear H.
-  unfold ev_step, erase_it, prog2, fatal, recover, heartbeat, handle_xlog, hp_val. simpl.
-  destruct (i_ev it) as [w [t|t|op| |]| w [|] sl | | | | | | x | | |]; simpl;
-  repeat match goal with |- context [if ?c then _ else _] => destruct c eqn:? end; simpl; split; reflexivity.
+  intros H. unfold ev_step. cbn [erase_it i_ev i_blocked i_prog2 i_pclosed2].
+  destruct (i_ev it) as [w k| w [|] sl | | | | | | x | | |]; cbn [erase_ev].
+  1: { destruct (handle_xlog_forget s2 t2 w k (i_blocked it) H) as (F & A & E).
+       destruct (handle_xlog s2 w k (i_blocked it)) as [[s3 o3] f].
+       destruct (handle_xlog t2 0 k (i_blocked it)) as [[t3 p3] f']. cbn [fst snd] in *. subst f'.
+       destruct f; unfold fatal; cbn [fst snd].
+       - split; [apply stop_forget; exact F|rewrite !acks_app, A; reflexivity].
+       - split; assumption. }
+  all: destruct s2, t2; unfold forget in H; simpl in H; inversion H; subst; clear H;
+       unfold prog2, fatal, recover, heartbeat, hp_val, forget; simpl;
+       repeat match goal with |- context [if ?c then _ else _] => destruct c eqn:? end; simpl; split; reflexivity.
 Qed.
 
 Lemma cstep_forget s t it : forget s = forget t ->
@@ -532,22 +783,69 @@ Proof. apply filter_In. Qed.
 Lemma head_out_couts s it : couts (head_out s it) = [].
 Proof. unfold head_out. destruct (head_sends s it); reflexivity. Qed.
 
-Lemma ev_step_couts s2 it : couts (snd (ev_step s2 it)) = ev_couts s2 (i_ev it).
+(* does handleXLogData reach its WriteLoop with this event, i.e. is there a message to forward
+   (XShort, XBadText and a BEGIN that is dropped return before) *)
+Definition reaches_write_loop (s : cstate) (e : cev) : bool :=
+  match e with
+  | EXLog _ (XBegin _) => negb (negb (saw_commit s) && negb (first_iter s))
+  | EXLog _ (XCommit _) | EXLog _ (XChange _) => true
+  | _ => false
+  end.
+
+(* the WriteLoop is reached and fails: a tick served while the output channel is full finds the
+   progress channel closed.  The message held is never forwarded and the client stops. *)
+Definition write_fails (s : cstate) (it : citer) : bool :=
+  reaches_write_loop s (i_ev it) && blocked_closed (i_blocked it).
+
+Lemma couts_bt_obs s bl : couts (bt_obs s bl) = [].
 Proof.
-  unfold ev_couts, ev_step, prog2, fatal, recover, heartbeat, handle_xlog.
+  assert (H : forall l, (forall x, In x l -> gs_or_send x = true) -> couts l = []).
+  { induction l as [|x l IH]; intros K; [reflexivity|].
+    assert (Kx : gs_or_send x = true) by (apply K; now left).
+    simpl. destruct x; try discriminate Kx; apply IH; intros y Hy; apply K; now right. }
+  apply H. intros x. apply bt_obs_kind.
+Qed.
+
+Lemma ev_step_couts s2 it :
+  couts (snd (ev_step s2 it)) = if write_fails s2 it then [] else ev_couts s2 (i_ev it).
+Proof.
+  unfold write_fails, reaches_write_loop, ev_couts, ev_step, prog2, fatal, recover, heartbeat, handle_xlog, write_loop.
   destruct (i_ev it) as [w [t|t|op| |]| w [|] sl | | | | | | x | | |];
-  repeat match goal with |- context [if ?c then _ else _] => destruct c eqn:? end; reflexivity.
+  rewrite ?blocked_ticks_eq; cbv beta iota;
+  repeat (cbn [negb andb]; match goal with |- context [if ?c then _ else _] => destruct c eqn:? end);
+  cbn [fst snd negb andb]; rewrite ?couts_app, ?couts_bt_obs; reflexivity.
 Qed.
 
 (* (the state handed to the handlers is the one after the loop-head handleProgress: same as [s]
    except that [overall] has absorbed the values waiting on the progress channel) *)
+Lemma write_fails_head s it : write_fails (head_state s it) it = write_fails s it.
+Proof. reflexivity. Qed.
+
 Lemma cstep_couts s it :
-  couts (snd (cstep s it)) = if stopped s || i_pclosed it then [] else ev_couts (head_state s it) (i_ev it).
+  couts (snd (cstep s it)) =
+  if stopped s || i_pclosed it || write_fails s it then [] else ev_couts (head_state s it) (i_ev it).
 Proof.
   destruct (stopped s) eqn:R; [rewrite cstep_stopped by assumption; reflexivity|].
   destruct (i_pclosed it) eqn:Pc; [rewrite cstep_pclosed by assumption; reflexivity|].
   rewrite cstep_consumed by assumption. simpl.
-  rewrite couts_app, head_out_couts, ev_step_couts. reflexivity.
+  rewrite couts_app, head_out_couts, ev_step_couts, write_fails_head. reflexivity.
+Qed.
+
+(* when the WriteLoop fails the client stops in this iteration *)
+Lemma ev_step_write_fails s2 it : write_fails s2 it = true -> stopped (fst (ev_step s2 it)) = true.
+Proof.
+  unfold write_fails, reaches_write_loop. intros H. apply andb_prop in H. destruct H as [Hr Hc].
+  unfold ev_step, handle_xlog, write_loop.
+  destruct (i_ev it) as [w [t|t|op| |]| w [|] sl | | | | | | x | | |]; try discriminate Hr;
+  rewrite ?blocked_ticks_eq, ?Hc; cbv beta iota; try reflexivity.
+  apply negb_true_iff in Hr. rewrite Hr. reflexivity.
+Qed.
+
+Lemma cstep_write_fails s it : stopped s = false -> i_pclosed it = false ->
+  write_fails s it = true -> stopped (fst (cstep s it)) = true.
+Proof.
+  intros R Pc W. rewrite cstep_consumed by assumption. cbn [fst].
+  apply ev_step_write_fails. rewrite write_fails_head. exact W.
 Qed.
 
 (* ---- the stamp (transaction id, delivery key, clock) and where it changes ---- *)
@@ -571,6 +869,9 @@ Proof.
   rewrite cstep_consumed by assumption. simpl. rewrite ev_step_stamp. reflexivity.
 Qed.
 
+Lemma stamp_ev_begins_ge st e : (snd st <= snd (stamp_ev st e))%N.
+Proof. destruct e as [w [t|t|op| |]| | | | | | | | | |]; simpl; lia. Qed.
+
 Lemma cstart_stamp first : stamp_of (fst (cstart first)) = (""%string, ""%string, 0%N).
 Proof. unfold cstart, get_start, fatal. destruct first; reflexivity. Qed.
 
@@ -589,7 +890,7 @@ Lemma cstep_attribution s it s' o op t k w :
 Proof.
   intros H I. assert (I2 : In (COut op t k w) (couts o)) by (apply in_couts; auto).
   pose proof (cstep_couts s it) as E. rewrite H in E. simpl in E. rewrite E in I2. clear E.
-  destruct (stopped s || i_pclosed it); [contradiction|].
+  destruct (stopped s || i_pclosed it || write_fails s it); [contradiction|].
   unfold ev_couts in I2.
   destruct (i_ev it) as [w' [t'|t'|op'| |]| w' [|] sl | | | | | | x | | |]; try contradiction.
   - match type of I2 with context [if ?c then _ else _] => destruct c end; [contradiction|].
@@ -660,10 +961,11 @@ Definition ev_commit_keys (s : cstate) (e : cev) : list string :=
   end.
 
 Lemma cstep_begin_keys s it : ev_ok (i_ev it) = true ->
-  begin_keys (snd (cstep s it)) = if stopped s || i_pclosed it then [] else ev_begin_keys s (i_ev it).
+  begin_keys (snd (cstep s it)) =
+  if stopped s || i_pclosed it || write_fails s it then [] else ev_begin_keys s (i_ev it).
 Proof.
   intros Ok. unfold begin_keys. rewrite out_keys_couts, cstep_couts.
-  destruct (stopped s || i_pclosed it); [reflexivity|].
+  destruct (stopped s || i_pclosed it || write_fails s it); [reflexivity|].
   unfold ev_couts, ev_begin_keys.
   cbn [head_state set_conn set_overall saw_commit first_iter ctxn ckey begins highest].
   destruct (i_ev it) as [w' [t'|t'|op'| |]| w' [|] sl | | | | | | x | | |]; try reflexivity.
@@ -675,10 +977,11 @@ Qed.
 
 
 Lemma cstep_commit_keys s it : ev_ok (i_ev it) = true ->
-  commit_keys (snd (cstep s it)) = if stopped s || i_pclosed it then [] else ev_commit_keys s (i_ev it).
+  commit_keys (snd (cstep s it)) =
+  if stopped s || i_pclosed it || write_fails s it then [] else ev_commit_keys s (i_ev it).
 Proof.
   intros Ok. unfold commit_keys. rewrite out_keys_couts, cstep_couts.
-  destruct (stopped s || i_pclosed it); [reflexivity|].
+  destruct (stopped s || i_pclosed it || write_fails s it); [reflexivity|].
   unfold ev_couts, ev_commit_keys.
   cbn [head_state set_conn set_overall saw_commit first_iter ctxn ckey begins highest].
   destruct (i_ev it) as [w' [t'|t'|op'| |]| w' [|] sl | | | | | | x | | |]; try reflexivity.
@@ -732,9 +1035,13 @@ Proof.
     pose proof (cstep_stamp s it) as St.
     destruct (cstep s it) as [s1 o1]. cbn [fst snd] in *. rewrite E. clear E.
     apply (f_equal snd) in St. unfold stamp_of in St. cbn [snd] in St.
-    destruct (stopped s || i_pclosed it).
+    destruct (stopped s || i_pclosed it); cbn [orb].
     + rewrite app_nil_r. apply IH; auto. rewrite St. exact B.
-    + unfold ev_begin_keys.
+    + destruct (write_fails s it).
+      { (* the WriteLoop fails: nothing is forwarded (the clock may have advanced) *)
+        rewrite app_nil_r. apply IH; auto. rewrite St. eapply bounded_weaken; [exact B|].
+        apply (stamp_ev_begins_ge (ctxn s, ckey s, begins s)). }
+      unfold ev_begin_keys.
       destruct (i_ev it) as [w' [t'|t'|op'| |]| w' [|] sl | | | | | | x | | |]; simpl in St;
         try (rewrite app_nil_r; apply IH; auto; rewrite St; exact B).
       destruct (negb (saw_commit s) && negb (first_iter s)).
@@ -816,9 +1123,8 @@ Definition open_txn (s : cstate) : bool := negb (first_iter s) && negb (saw_comm
 
 Lemma ev_step_flags s2 it : flags_of (fst (ev_step s2 it)) = flags_ev (flags_of s2) (i_ev it).
 Proof.
-  unfold flags_of, ev_step, prog2, fatal, recover, heartbeat, handle_xlog.
-  destruct (i_ev it) as [w [t|t|op| |]| w [|] sl | | | | | | x | | |]; cbn [flags_ev fst snd];
-  repeat match goal with |- context [if ?c then _ else _] => destruct c eqn:? end; reflexivity.
+  unfold flags_of. ev_an; cbn [flags_ev fst snd];
+  repeat match goal with Hc : ?c = _ |- context [if ?c then _ else _] => rewrite Hc end; reflexivity.
 Qed.
 
 Lemma cstep_flags s it :
@@ -872,8 +1178,13 @@ Proof.
     destruct (i_pclosed it) eqn:Pc.
     { rewrite citers_cons, cstep_pclosed by assumption. cbn [fst snd].
       rewrite citers_stopped by reflexivity. simpl. rewrite app_nil_r. exact N. }
+    destruct (write_fails s it) eqn:Wf.
+    { (* the WriteLoop fails: nothing is forwarded, the client stops *)
+      rewrite citers_cons. cbn [snd]. unfold commit_keys. rewrite out_keys_app.
+      pose proof (cstep_commit_keys s it Ok1) as E. unfold commit_keys in E. rewrite E, R, Pc, Wf. cbn [orb app].
+      rewrite citers_stopped by (apply cstep_write_fails; assumption). simpl. rewrite app_nil_r. exact N. }
     rewrite citers_cons. cbn [snd]. unfold commit_keys in *. rewrite out_keys_app, app_assoc.
-    pose proof (cstep_commit_keys s it Ok1) as E. unfold commit_keys in E.
+    pose proof (cstep_commit_keys s it Ok1) as E. unfold commit_keys in E. rewrite Wf, orb_false_r in E.
     pose proof (cstep_stamp s it) as St. pose proof (cstep_flags s it) as Fl.
     destruct (cstep s it) as [s1 o1]. cbn [fst snd] in *. rewrite E. clear E.
     rewrite R, Pc in *. cbn [orb] in *. unfold stamp_of in St. unfold flags_of in Fl.
@@ -955,6 +1266,20 @@ Proof.
   destruct (IH c b) as [E1 E2]. rewrite E1, E2, andb_assoc. split; reflexivity.
 Qed.
 
+(* connection requests and status updates (all the blocked-output loop emits) are invisible to
+   the monitor *)
+Lemma scope_gs l : (forall x, In x l -> gs_or_send x = true) ->
+  forall c, scope_ok c l = true /\ scope_end c l = c.
+Proof.
+  induction l as [|x l IH]; intros K c; [split; reflexivity|].
+  assert (Kx : gs_or_send x = true) by (apply K; now left).
+  assert (Kl : forall y, In y l -> gs_or_send y = true) by (intros y Hy; apply K; now right).
+  destruct x; try discriminate Kx; simpl; apply IH; exact Kl.
+Qed.
+
+Lemma scope_bt s bl c : scope_ok c (bt_obs s bl) = true /\ scope_end c (bt_obs s bl) = c.
+Proof. apply scope_gs. intros x. apply bt_obs_kind. Qed.
+
 Definition scope_rel (c : option (string * string)) (s : cstate) : Prop :=
   c = None \/ c = Some (ctxn s, ckey s).
 
@@ -962,7 +1287,13 @@ Lemma ev_step_scope s2 it c : ev_ok (i_ev it) = true -> scope_rel c s2 ->
   scope_ok c (snd (ev_step s2 it)) = true /\ scope_rel (scope_end c (snd (ev_step s2 it))) (fst (ev_step s2 it)).
 Proof.
   intros Ok Rl. unfold scope_rel in *. revert Ok.
-  ev_an; intros Ok; simpl;
+  ev_an; intros Ok;
+    try match goal with |- context [scope_ok ?c0 (bt_obs ?S ?bl ++ ?r)] =>
+      let E1 := fresh in let E2 := fresh in let E3 := fresh in let E4 := fresh in
+      destruct (scope_app (bt_obs S bl) c0 r) as [E1 E2]; rewrite E1, E2;
+      destruct (scope_bt S bl c0) as [E3 E4]; rewrite E3, E4; clear E1 E2 E3 E4
+    end;
+    simpl;
     try (split; [reflexivity|]; auto; fail);
     try (destruct Rl as [->| ->]; rewrite ?String.eqb_refl; simpl; auto; fail).
   simpl in Ok. apply andb_prop in Ok. destruct Ok as [Ok _]. apply negb_true_iff in Ok. rewrite Ok.
@@ -1053,21 +1384,34 @@ Proof.
   repeat split; reflexivity.
 Qed.
 
+(* the BEGIN is accepted: the state is stamped, then the WriteLoop serves the ticks that fire while
+   the output channel is full (one connection request - never a fresh one - and one status update
+   each) and hands the BEGIN over; if one of those ticks finds the progress channel closed the
+   BEGIN is NOT forwarded and the client stops (Close, Stop).  With [i_blocked it = []] this is:
+   o = head_out s it ++ [COut "BEGIN" ...], connection kept, client running. *)
 Lemma cstep_begin_accepted s it s' o w t :
   stopped s = false -> i_pclosed it = false ->
   saw_commit s = true \/ first_iter s = true ->
   i_ev it = EXLog w (XBegin t) -> cstep s it = (s', o) ->
-  o = head_out s it ++ [COut "BEGIN" t (key_of t (begins s)) w] /\ conn_open s' = true /\
-  highest s' = highest s /\ first_iter s' = false /\ saw_commit s' = false /\ stopped s' = false /\
+  o = head_out s it ++ blocked_obs (highest s) true (hp_val s (i_prog it)) (i_blocked it) ++
+      (if blocked_closed (i_blocked it) then [CClose; CStop] else [COut "BEGIN" t (key_of t (begins s)) w]) /\
+  conn_open s' = negb (blocked_closed (i_blocked it)) /\
+  highest s' = highest s /\ first_iter s' = false /\ saw_commit s' = false /\
+  stopped s' = blocked_closed (i_blocked it) /\
   ctxn s' = t /\ ckey s' = key_of t (begins s).
 Proof.
   intros R Pc Sf Ev H. rewrite (cstep_consumed _ _ R Pc) in H. inversion H; subst; clear H.
-  unfold ev_step, handle_xlog. rewrite Ev.
+  unfold ev_step, handle_xlog, write_loop. rewrite Ev.
   change (saw_commit (head_state s it)) with (saw_commit s).
   change (first_iter (head_state s it)) with (first_iter s).
   assert (E : negb (saw_commit s) && negb (first_iter s) = false).
   { destruct Sf as [-> | ->]; simpl; [reflexivity|apply andb_false_r]. }
-  rewrite E. simpl. repeat split; reflexivity.
+  rewrite E, blocked_ticks_eq. cbv beta iota.
+  destruct (blocked_closed (i_blocked it)); unfold fatal;
+    cbn [fst snd stop conn_open highest first_iter saw_commit stopped ctxn ckey negb];
+    rewrite ?bt_highest, ?bt_first_iter, ?bt_saw_commit, ?bt_stopped, ?bt_ctxn, ?bt_ckey;
+    rewrite ?bt_conn_open by reflexivity;
+    repeat split; reflexivity.
 Qed.
 
 (* after a dropped BEGIN the next connection request restarts at [highest] *)
@@ -1150,6 +1494,49 @@ Proof.
   unfold head_out, head_sends. rewrite Tk, orb_true_r. reflexivity.
 Qed.
 
+(* ---------- the blocked-output loop inside an iteration ---------- *)
+Lemma blocked_obs_shape h bl : forall cur x, In x (blocked_obs h true cur bl) ->
+  x = CGetStart h false \/ exists v, x = CSend v.
+Proof.
+  induction bl as [|[vs closed] bl IH]; intros cur x; cbn [blocked_obs]; [intros []|].
+  destruct closed; [intros []|]. intros [<-|[<-|I]]; [now left|right; eauto|eapply IH; exact I].
+Qed.
+
+(* An XLogData message that is to be forwarded (handleXLogData reaches its WriteLoop), received
+   by a running client: after the receive the observations are exactly the connection requests
+   and status updates of the ticks served while the output channel is full, then the message -
+   or, if one of those ticks finds the progress channel closed, Close, Stop instead of the
+   message.  The connection requests carry highestWalStart as already advanced by a held COMMIT
+   (= [highest s']). *)
+Lemma cstep_write_loop s it s' o :
+  stopped s = false -> i_pclosed it = false -> reaches_write_loop s (i_ev it) = true ->
+  cstep s it = (s', o) ->
+  exists m, ev_couts (head_state s it) (i_ev it) = [m] /\
+    o = head_pre s it ++ CRecv :: blocked_obs (highest s') true (hp_val s (i_prog it)) (i_blocked it) ++
+        (if blocked_closed (i_blocked it) then [CClose; CStop] else [m]) /\
+    acks o = (if head_sends s it then [hp_val s (i_prog it)] else []) ++
+             acks (blocked_obs (highest s') true (hp_val s (i_prog it)) (i_blocked it)) /\
+    stopped s' = blocked_closed (i_blocked it) /\
+    overall s' = blocked_val (hp_val s (i_prog it)) (i_blocked it).
+Proof.
+  intros R Pc Hr H. rewrite (cstep_consumed _ _ R Pc) in H. inversion H; subst; clear H.
+  assert (Ha : acks (head_pre s it) = if head_sends s it then [hp_val s (i_prog it)] else []).
+  { unfold head_pre. destruct (head_sends s it); reflexivity. }
+  unfold reaches_write_loop in Hr. unfold ev_step, ev_couts, handle_xlog, write_loop.
+  change (saw_commit (head_state s it)) with (saw_commit s).
+  change (first_iter (head_state s it)) with (first_iter s).
+  destruct (i_ev it) as [w [t|t|op| |]| w [|] sl | | | | | | x | | |]; try discriminate Hr;
+  try (apply negb_true_iff in Hr; rewrite Hr);
+  rewrite blocked_ticks_eq; cbv beta iota;
+  (eexists; split; [reflexivity|]);
+  rewrite head_out_pre, <- app_assoc, <- Ha;
+  destruct (blocked_closed (i_blocked it)); unfold fatal;
+    cbn [fst snd stop highest stopped overall app];
+    rewrite ?bt_highest, ?bt_stopped, ?bt_overall; cbn [highest stopped overall head_state set_conn set_overall];
+    rewrite ?R, !acks_app; cbn [acks flat_map app]; rewrite ?acks_app, ?app_nil_r;
+    repeat split; reflexivity.
+Qed.
+
 Lemma cstep_reads_once_or_stops s it s' o :
   stopped s = false -> cstep s it = (s', o) ->
   (i_pclosed it = true /\ o = [CClose; CStop] /\ stopped s' = true) \/
@@ -1168,10 +1555,11 @@ Lemma ev_step_stop s2 it : stopped s2 = false ->
   (In CStop (snd (ev_step s2 it)) -> exists pre, snd (ev_step s2 it) = pre ++ [CClose; CStop]).
 Proof.
   intros R. ev_an; rewrite ?R;
-  (split; [split; intros H; [try discriminate H; simpl; tauto
-                            |try reflexivity; exfalso; repeat (destruct H as [H|H]; [discriminate H|]); exact H]
+  (split; [split; intros H; [try discriminate H; first [simpl; tauto|apply in_or_app; right; simpl; tauto]
+                            |try reflexivity; exfalso; in_split H; discriminate H]
           |intros H; first [ now (exists []) | now (eexists [_]) | now (eexists [_; _])
-                           | exfalso; repeat (destruct H as [H|H]; [discriminate H|]); exact H ]]).
+                           | eexists; reflexivity
+                           | exfalso; in_split H; discriminate H ]]).
 Qed.
 
 Lemma cstep_stop_announced s it s' o :
@@ -1232,32 +1620,39 @@ Lemma cstep_recovery_couts s it x :
   if open_txn s
   then [COut "COMMIT" (ctxn s) (ckey s) (if (highest s =? 0)%N then hp_val s (i_prog it) else highest s)]
   else [].
-Proof. intros R Pc Ev. rewrite cstep_couts, R, Pc, Ev. reflexivity. Qed.
+Proof. intros R Pc Ev. rewrite cstep_couts, R, Pc. unfold write_fails. rewrite Ev. reflexivity. Qed.
 
-(* while a transaction is open, the current key is the key of the last forwarded BEGIN *)
+(* while a transaction is open on a RUNNING client, the current key is the key of the last
+   forwarded BEGIN.  (A client that stopped inside the WriteLoop of an accepted BEGIN - the
+   progress channel was found closed while the output channel was full - has stamped that BEGIN
+   but never forwarded it: hence "running".) *)
 Definition open_key_inv (s : cstate) (K : list string) : Prop :=
-  open_txn s = true -> exists K0, K = K0 ++ [ckey s].
+  stopped s = false -> open_txn s = true -> exists K0, K = K0 ++ [ckey s].
 
 Lemma cstep_open_key s it K : ev_ok (i_ev it) = true -> open_key_inv s K ->
   open_key_inv (fst (cstep s it)) (K ++ begin_keys (snd (cstep s it))).
 Proof.
-  intros Ok P. rewrite (cstep_begin_keys s it Ok).
-  pose proof (cstep_stamp s it) as St. pose proof (cstep_flags s it) as Fl.
+  intros Ok P.
+  destruct (stopped s) eqn:R.
+  { rewrite cstep_stopped by exact R. cbn [fst snd]. intros R'. congruence. }
+  destruct (i_pclosed it) eqn:Pc.
+  { rewrite cstep_pclosed by assumption. cbn [fst snd]. intros R'. discriminate R'. }
+  destruct (write_fails s it) eqn:Wf.
+  { intros R'. rewrite (cstep_write_fails s it R Pc Wf) in R'. discriminate R'. }
+  rewrite (cstep_begin_keys s it Ok), R, Pc, Wf. cbn [orb].
+  pose proof (cstep_stamp s it) as St. pose proof (cstep_flags s it) as Fl. rewrite R, Pc in St, Fl. cbn [orb] in St, Fl.
   destruct (cstep s it) as [s1 o1]. cbn [fst snd] in *.
-  unfold open_key_inv, open_txn, stamp_of, flags_of in *.
+  unfold open_key_inv, open_txn, stamp_of, flags_of in *. specialize (P R).
   pose proof (f_equal (fun p => snd (fst p)) St) as Sk. pose proof (f_equal snd St) as Sb.
   pose proof (f_equal fst Fl) as Ff. pose proof (f_equal snd Fl) as Fs. cbn beta in Sk. cbn [fst snd] in Sk, Sb, Ff, Fs.
-  clear St Fl.
-  destruct (stopped s || i_pclosed it); cbn [fst snd] in *.
-  - rewrite app_nil_r, Sk, Ff, Fs. exact P.
-  - unfold ev_begin_keys.
-    destruct (i_ev it) as [w' [t'|t'|op'| |]| w' [|] sl | | | | | | x | | |];
-      cbn [stamp_ev flags_ev fst snd] in *;
-      try (rewrite app_nil_r, Sk, Ff, Fs; exact P);
-      try (rewrite Ff, Fs; simpl; rewrite ?andb_false_r; discriminate).
-    rewrite Sk. destruct (negb (saw_commit s) && negb (first_iter s)).
-    + rewrite Ff. simpl. discriminate.
-    + intros _. exists K. reflexivity.
+  clear St Fl. intros _. unfold ev_begin_keys.
+  destruct (i_ev it) as [w' [t'|t'|op'| |]| w' [|] sl | | | | | | x | | |];
+    cbn [stamp_ev flags_ev fst snd] in *;
+    try (rewrite app_nil_r, Sk, Ff, Fs; exact P);
+    try (rewrite Ff, Fs; simpl; rewrite ?andb_false_r; discriminate).
+  rewrite Sk. destruct (negb (saw_commit s) && negb (first_iter s)).
+  - rewrite Ff. simpl. discriminate.
+  - intros _. exists K. reflexivity.
 Qed.
 
 Lemma citers_open_key its : forall s K, script_ok its = true -> open_key_inv s K ->
@@ -1271,13 +1666,14 @@ Proof.
 Qed.
 
 Lemma crun_open_key first its : script_ok its = true ->
+  stopped (fst (crun first its)) = false ->
   open_txn (fst (crun first its)) = true ->
   exists K0, begin_keys (snd (crun first its)) = K0 ++ [ckey (fst (crun first its))].
 Proof.
   intros Ok. rewrite crun_fst, crun_snd. unfold begin_keys. rewrite out_keys_app.
   rewrite (out_keys_couts _ (snd (cstart first))), cstart_couts.
   apply (citers_open_key its (fst (cstart first)) [] Ok).
-  intros O. pose proof (cstart_flags first) as F. apply (f_equal fst) in F. unfold flags_of in F. simpl in F.
+  intros _ O. pose proof (cstart_flags first) as F. apply (f_equal fst) in F. unfold flags_of in F. simpl in F.
   unfold open_txn in O. rewrite F in O. discriminate.
 Qed.
 
@@ -1307,9 +1703,23 @@ Proof.
   pose proof (f_equal (fun p => snd (fst p)) St) as Sk. pose proof (f_equal snd St) as Sb.
   pose proof (f_equal fst Fl) as Ff. pose proof (f_equal snd Fl) as Fs. cbn beta in Sk. cbn [fst snd] in Sk, Sb, Ff, Fs.
   clear St Fl.
-  destruct (stopped s || i_pclosed it); cbn [fst snd] in *.
+  destruct (stopped s || i_pclosed it); cbn [orb fst snd] in *.
   - rewrite app_nil_r, Sk, Sb, Ff, Fs. auto.
-  - unfold ev_commit_keys.
+  - destruct (write_fails s it) eqn:Wf.
+    { (* the WriteLoop fails: the state is stamped / flagged, nothing is forwarded *)
+      rewrite app_nil_r. unfold write_fails, reaches_write_loop in Wf.
+      destruct (i_ev it) as [w' [t'|t'|op'| |]| w' [|] sl | | | | | | x | | |]; try discriminate Wf;
+        cbn [stamp_ev flags_ev fst snd] in *.
+      - rewrite Sk, Sb. split; [|split].
+        + intros k I. destruct (B k I) as [E|(t & n & E & L)]; [now left|right].
+          exists t, n. split; [exact E|lia].
+        + right. exists t', (begins s). split; [reflexivity|lia].
+        + intros _ I. destruct (B _ I) as [E|(t & n & E & L)].
+          * exact (key_of_nonempty _ _ E).
+          * apply key_of_injective in E. destruct E as [_ E]. lia.
+      - rewrite Sk, Sb, Fs. split; [exact B|split; [exact Kf|]]. rewrite andb_false_r. discriminate.
+      - rewrite Sk, Sb, Ff, Fs. auto. }
+    unfold ev_commit_keys.
     destruct (i_ev it) as [w' [t'|t'|op'| |]| w' [|] sl | | | | | | x | | |];
       cbn [stamp_ev flags_ev fst snd] in *;
       try (rewrite app_nil_r, Sk, Sb, Ff, Fs; auto; fail).
@@ -1392,7 +1802,7 @@ Lemma crun_synthetic_commit_nonzero first its1 it x s' o op t k w :
 Proof.
   intros Sp H Ev I. assert (I2 : In (COut op t k w) (couts o)) by (apply in_couts; auto).
   pose proof (cstep_couts (fst (crun first its1)) it) as E. rewrite H in E. simpl in E. rewrite E in I2. clear E.
-  destruct (stopped (fst (crun first its1)) || i_pclosed it); [contradiction|].
+  destruct (stopped (fst (crun first its1)) || i_pclosed it || write_fails (fst (crun first its1)) it); [contradiction|].
   rewrite Ev in I2. unfold ev_couts in I2.
   match type of I2 with context [if ?c then [_] else _] => destruct c end; [|contradiction].
   destruct I2 as [I2|[]]. inversion I2; subst. clear I2.
@@ -1401,4 +1811,64 @@ Proof.
   change (overall (head_state (fst (crun first its1)) it)) with (hp_val (fst (crun first its1)) (i_prog it)).
   change (highest (head_state (fst (crun first its1)) it)) with (highest (fst (crun first its1))).
   destruct (N.eqb_spec (highest (fst (crun first its1))) 0); lia.
+Qed.
+
+(* ================================================================================== *)
+(* 8. The blocked-output loop: status updates while the downstream channel is full     *)
+(* ================================================================================== *)
+(* C03: every value acknowledged in an iteration - at the loop head, at the second handleProgress
+   call, or at a tick served while the output channel is full - is the position held when the
+   iteration began or a value delivered on the progress channel during the iteration *)
+Lemma cstep_sends_sourced s it s' o a :
+  cstep s it = (s', o) -> In a (acks o) ->
+  a = overall s \/ In a (i_prog it) \/ In a (i_prog2 it) \/ In a (blocked_values (i_blocked it)).
+Proof.
+  intros H I.
+  destruct (cstep_source s it s' o (fun v => v = overall s \/ In v (iter_values it)) H) as [_ F];
+    [now left|intros v Hv; now right|].
+  rewrite Forall_forall in F. destruct (F a I) as [E|E]; [now left|right].
+  unfold iter_values in E. apply in_app_or in E. destruct E as [E|E]; [now left|right].
+  apply in_app_or in E. exact E.
+Qed.
+
+(* C18: no tick served while the output channel is full finds the progress channel closed: one
+   status update per tick between the receive and the hand-over, and the message is forwarded *)
+Lemma cstep_blocked_tick_sends s it s' o :
+  stopped s = false -> i_pclosed it = false ->
+  reaches_write_loop s (i_ev it) = true -> blocked_closed (i_blocked it) = false ->
+  cstep s it = (s', o) ->
+  exists m sends,
+    ev_couts (head_state s it) (i_ev it) = [m] /\
+    o = head_pre s it ++ CRecv :: sends ++ [m] /\
+    sends = blocked_obs (highest s') true (hp_val s (i_prog it)) (i_blocked it) /\
+    (forall x, In x sends -> x = CGetStart (highest s') false \/ exists v, x = CSend v) /\
+    List.length (acks sends) = List.length (i_blocked it) /\
+    List.length (acks o) = ((if head_sends s it then 1 else 0) + List.length (i_blocked it))%nat /\
+    stopped s' = false /\
+    overall s' = blocked_val (hp_val s (i_prog it)) (i_blocked it).
+Proof.
+  intros R Pc Hr Hc H.
+  destruct (cstep_write_loop s it s' o R Pc Hr H) as (m & Em & Eo & Ea & Es & Ev).
+  rewrite Hc in Eo, Es.
+  exists m, (blocked_obs (highest s') true (hp_val s (i_prog it)) (i_blocked it)).
+  repeat split; try assumption.
+  - apply blocked_obs_shape.
+  - apply blocked_obs_count. exact Hc.
+  - rewrite Ea, app_length, (blocked_obs_count _ _ _ _ Hc). destruct (head_sends s it); reflexivity.
+Qed.
+
+(* ... and when one of them does: the status updates of the ticks before it, then Close, Stop;
+   the message held is never forwarded *)
+Lemma cstep_blocked_channel_closed s it s' o :
+  stopped s = false -> i_pclosed it = false ->
+  reaches_write_loop s (i_ev it) = true -> blocked_closed (i_blocked it) = true ->
+  cstep s it = (s', o) ->
+  o = head_pre s it ++ CRecv :: blocked_obs (highest s') true (hp_val s (i_prog it)) (i_blocked it) ++ [CClose; CStop] /\
+  couts o = [] /\ stopped s' = true.
+Proof.
+  intros R Pc Hr Hc H.
+  destruct (cstep_write_loop s it s' o R Pc Hr H) as (m & Em & Eo & Ea & Es & Ev).
+  rewrite Hc in Eo, Es. repeat split; try assumption.
+  pose proof (cstep_couts s it) as C. rewrite H in C. cbn [snd] in C.
+  unfold write_fails in C. rewrite Hr, Hc, R, Pc in C. exact C.
 Qed.
